@@ -33,15 +33,16 @@ ENV_MODES = [
     ('optimize', ['-O'], {}),                                   # assert statements are stripped
     ('warnings-as-errors', [], {'VERIF_WERROR': '1'}),          # any warning raised by library code is an exception
     ('c-locale', [], {'LC_ALL': 'C', 'LANG': 'C', 'PYTHONUTF8': '0', 'PYTHONCOERCECLOCALE': '0'}),
-    ('default', [], {}),
     ('hash-random', [], {'PYTHONHASHSEED': 'random'}),
     ('optimize+warnings-as-errors', ['-OO'], {'VERIF_WERROR': '1'}),
     ('cwd-elsewhere', [], {'VERIF_CWD': 'tmp'}),
 ]
 
 
-def env_mode_of(shard):
-    return ENV_MODES[shard % len(ENV_MODES)]
+def env_mode_of(shard, env_pass=0):
+    """Round robin over the shards; a property module with ENV_FULL = True runs every shard once per
+    mode (pass p shifts the assignment by p), the others run each shard once."""
+    return ENV_MODES[(shard + env_pass) % len(ENV_MODES)]
 
 
 def apply_env_mode_in_child():
@@ -349,6 +350,8 @@ def shard_main(argv):
 # --------------------------------------------------------------- parent
 def run_shards(pid, tier, seed, mod):
     n = mod.nshards(tier)
+    passes = len(ENV_MODES) if getattr(mod, 'ENV_FULL', False) else 1
+    total = n * passes
     wdir = os.path.join(WORK, f'{pid}-{os.getpid()}')
     os.makedirs(wdir, exist_ok=True)
     limit = mod.TIMEOUT[tier]
@@ -381,10 +384,10 @@ def run_shards(pid, tier, seed, mod):
             if os.path.exists(pth):
                 os.remove(pth)
         log = open(os.path.join(wdir, f'shard-{i}.log'), 'w')
-        mode, pyargs, envover = env_mode_of(i) if getattr(mod, 'ENV_MODES', True) else ENV_MODES[0]
+        mode, pyargs, envover = env_mode_of(i % n, i // n)
         p = subprocess.Popen(
             [sys.executable, '-B'] + pyargs + ['-m', 'vmon.core', '--shard-run',
-             pid, tier, str(seed), str(i), str(n), out],
+             pid, tier, str(seed), str(i % n), str(n), out],
             stdout=log, stderr=subprocess.STDOUT, env=dict(env, VERIF_ENVMODE=mode, **envover), cwd=HERE)
         return p, out, time.time(), log
 
@@ -417,6 +420,7 @@ def run_shards(pid, tier, seed, mod):
                 if os.path.exists(out) and not timed_out:
                     with open(out) as f:
                         results[i] = json.load(f)
+                    results[i]['secondary'] = i >= n          # a further environment pass over the same slice
                     if has_new(results[i]):
                         note_violation()
                 elif partial_of(out) is not None:
@@ -437,14 +441,14 @@ def run_shards(pid, tier, seed, mod):
                     failed.append(i)
         return failed
 
-    failed = drive(range(n), getattr(mod, 'MAXPAR', NCPU), final=False)
+    failed = drive(range(total), getattr(mod, 'MAXPAR', NCPU), final=False)
     if failed and stop['at'] is None:
         # Retry once, one at a time (DESIGN 2.6).
         drive(failed, 1, final=True)
-    if not problems and len(results) == n:
+    if not problems and len(results) == total:
         import shutil
         shutil.rmtree(wdir, ignore_errors=True)
-    return n, results, problems
+    return total, results, problems
 
 
 def merge(results):
@@ -459,9 +463,11 @@ def merge(results):
     for i in sorted(results):
         r = results[i]
         counters.update(r['counters'])
-        distinct.update(r['distinct'])
-        distinct_bc += r['distinct_bc']
-        samples.extend(r['samples'][:3])
+        if not r.get('secondary'):
+            # distinct cases and samples are counted once, not once per environment
+            distinct.update(r['distinct'])
+            distinct_bc += r['distinct_bc']
+            samples.extend(r['samples'][:3])
         violations.extend(r['violations'])
         for c, k, n in r['vcount']:
             vcount[(c, k)] += n
